@@ -20,8 +20,9 @@ computed from the loss values, polymorphic in `[Scalar α]`; `last = none` is th
 `_Stepper.reset` installs.  A batched loss is the list of its elements (`torch.all` = `List.all`).
 
 Things that are as in the code and not as one might expect:
-* `_Stepper.reset` resets `last`, `steps`, `_continual` — and **not** `patience_count`
-  (`patience_count` only exists in the subclass `ReduceToBason`); `rtbReset` keeps it.
+* `_Stepper.reset` resets `last`, `steps`, `_continual` and `patience_count` (since the repair of defect D31;
+  before it `patience_count` survived `reset`, see `Proofs/Lemmas/Stop.lean: rtbResetOld`).
+* `StopOnPlateau` (`_Scheduler`) has **no** `reset`; nothing in the code re-arms a stopped scheduler.
 * `StopOnPlateau.step` ignores its `loss` argument and reads `optimizer.last / .loss / .reject_count`;
   its test is on the *absolute* decrease `last - loss < decreasing`.
 * `ReduceToBason.step` tests the decrease *relative to the new loss*, `(last - loss)/loss < decreasing`,
@@ -75,15 +76,9 @@ def rtbStep (c : Cfg) (s : St) (o : Obs) : St :=
   let cont2 := if c.patience ≤ (pc : Int) then false else cont1      -- if self.patience_count >= self.patience
   ⟨steps, pc, cont2⟩
 
-/-- `_Stepper.reset`: `steps, _continual = 0, True` (and `last = inf`, numeric layer).
-`patience_count` is **not** touched by the code. -/
-def rtbReset (s : St) : St := ⟨0, s.pc, true⟩
-
-/-- The *repaired* `reset` (also `patience_count = 0`), i.e. what the property asks of `reset`.  Not what the
-code does today; the driver uses it when the code under test is observed to clear the counter, so that the
-correspondence stays meaningful after a fix of `/repo` (the property oracle, not the model, decides which of
-the two is right). -/
-def rtbResetFixed (_ : St) : St := St.init
+/-- `_Stepper.reset`: `self.steps, self._continual, self.patience_count = 0, True, 0` (and `last = inf`,
+numeric layer). -/
+def rtbReset (_ : St) : St := ⟨0, 0, true⟩
 
 /-- the state after `n` steps fed with `obs 0 … obs (n-1)` -/
 def run (stepf : St → Obs → St) (s : St) (obs : Nat → Obs) : Nat → St
@@ -177,12 +172,10 @@ def rtbResetNum (s : RtbSt α) : RtbSt α := ⟨rtbReset s.st, none⟩
 inductive Ev (α : Type) where
   | step (loss : List α)
   | reset
-  | resetFixed
 
 def rtbEv (c : Cfg) (d tol : α) (s : RtbSt α) : Ev α → RtbSt α
   | .step loss => rtbStepNum c d tol s loss
   | .reset => rtbResetNum s
-  | .resetFixed => ⟨rtbResetFixed s.st, none⟩
 
 /-- states after each event of a history -/
 def rtbTrace (c : Cfg) (d tol : α) : RtbSt α → List (Ev α) → List (RtbSt α)
